@@ -380,7 +380,8 @@ def run(repo: Repo, chk: Check):
                                                   for t in st.targets):
                 tgt = [norm(t) for t in st.targets]
                 if any(t in ("self.data.result", "self.result") for t in tgt) and mn != "compile_pass" or "self.result = {" in norm(st):
-                    if not isinstance(st.value, ast.Dict):
+                    is_dict = isinstance(st.value, (ast.Dict, ast.DictComp)) or isinstance(st.value, ast.Call) and norm(st.value.func) == "dict"
+                    if not is_dict:
                         if norm(st.value) != "value":
                             bad.append(f"{mn}: {norm(st)[:60]}")
     chk.judge("R14.b", "package:data.result is assigned dictionaries only", not bad, f"{bad}", None, "compile_pass/generate_code")
